@@ -922,14 +922,15 @@ def oracle(recipe, srname, ctx, env_lin):
     return ev
 
 
-def oracle_stage(ctx, case, stage):
+def oracle_stage(ctx, case, stage, res=None):
     """(expected, got, ins) if `stage` of `case` disagrees with the python oracle, else None."""
     srname, c, recipe = case["sr"], case["ctx"], case["recipe"]
     log = SR[srname][3] == "log"
-    try:
-        res = run_impl(case)
-    except DECLINE:
-        return None
+    if res is None:
+        try:
+            res = run_impl(case)
+        except DECLINE:
+            return None
     x = res["x"]
     if shares_binders(x) or absent_var_region(x):
         return None
@@ -1272,6 +1273,31 @@ def stream_einsum(ctx):
                 ctx.fail("input", "C08.einsum-ne-bruteforce", witness=dict(equation=eqn, backend=backend, sizes={s: sizes[s] for s in "abcd"[:nsym]},
                          data=[a.tolist() for a in arrays_lin]), expected=str(want)[:400], got=str(bad)[:400], python=py)
                 continue
+            # the two numpy einsum back ends themselves (funsor/einsum/numpy_log.py, numpy_map.py), which
+            # funsor reaches through opt_einsum.contract(..., backend=<module name>)
+            direct = {"logaddexp-add": "funsor.einsum.numpy_log", "max-add": "funsor.einsum.numpy_map"}.get(srname)
+            if direct is not None:
+                import opt_einsum
+                try:
+                    with np.errstate(all="ignore"):
+                        arr = opt_einsum.contract(eqn, *[np.asarray(t.data, dtype=float) for t in terms], backend=direct)
+                    rd = Tensor(np.asarray(arr), OrderedDict((s_, Bint[sizes[s_]]) for s_ in out_syms))
+                    gotd = values_of(rd, ins, {}, log)
+                except DECLINE as e:
+                    ctx.count(f"einsum:direct-declined:{type(e).__name__}")
+                    gotd = want
+                ctx.count(f"einsum:direct:{direct}")
+                if gotd is None or not vals_equal(gotd, want, 1e-9 if log else 0.0):
+                    py = ("import numpy as np, math, opt_einsum\n" +
+                          "arrays = [" + ", ".join(f"np.array({t.data.tolist()!r}, dtype=float)" for t in terms).replace("-inf", "-math.inf").replace("inf", "math.inf").replace("-math.math.inf", "-math.inf") + "]\n" +
+                          f"r = opt_einsum.contract({eqn!r}, *arrays, backend={direct!r})\nprint(r)\n"
+                          f"want = {[float(v) for v in want]!r}   # brute force over {ins} (sorted output symbols" + (", linear space" if log else "") + ")\n"
+                          f"r = np.asarray(r).transpose({[out_syms.index(n) for n, _ in ins]!r}).reshape(-1)\n" +
+                          ("r = np.exp(r)\n" if log else "") +
+                          "FAILS = not np.allclose(r, want, rtol=1e-9, equal_nan=True)\n")
+                    ctx.fail("input", "C08.einsum-backend-ne-bruteforce", witness=dict(equation=eqn, backend=direct,
+                             data=[a.tolist() for a in arrays_lin]), expected=str(want)[:400], got=str(gotd)[:400], python=py)
+                    continue
             # Lean: denote of the lazy contraction (sampled: the driver is the slow part)
             if not log and idx % 7 == 0:
                 red = sorted(set().union(*[set(o) for o in perm_ops]) - set(output))
@@ -1318,9 +1344,13 @@ def search(ctx, broken):
     found = 0
     for _ in range(n):
         case = gen_case(rng, ctx.tier)
+        try:
+            res = run_impl(case)
+        except DECLINE:
+            continue
         for stage in STAGES:
             try:
-                r = oracle_stage(ctx, case, stage)
+                r = oracle_stage(ctx, case, stage, res)
             except Exception:
                 r = None
             if r is not None:
